@@ -129,7 +129,9 @@ fn drive(s: &Scenario, driving: &str, r: &mut Rng) -> (Vec<(usize, u64)>, u64, u
         }
         let next_cut = (done / 4 + 1) * 4;
         let room = next_cut.min(s.frames) - done;
-        let advanced = match driving {
+        // "mix": the host changes its way of driving between any two calls
+        let how = if driving == "mix" { *r.pick(&["one", "n", "max1", "bp", "bpn"]) } else { driving };
+        let advanced = match how {
             "n" => {
                 let n = 1 + r.below(room as u64) as usize;
                 emu.set_debug_interface(VDebug::Never);
@@ -151,7 +153,8 @@ fn drive(s: &Scenario, driving: &str, r: &mut Rng) -> (Vec<(usize, u64)>, u64, u
             "bpn" => {
                 // several frames per call with breakpoint stops in between
                 let n = 1 + r.below(room as u64) as usize;
-                emu.set_debug_interface(VDebug::Every { k: 1 + r.below(20_000), n: 0 });
+                let k = 1 + r.below(20_000);
+                emu.set_debug_interface(VDebug::Every { k, n: 0 });
                 emu.set_speed(EmulationMode::FrameCount(n));
                 let mut calls = 0u64;
                 loop {
@@ -160,9 +163,14 @@ fn drive(s: &Scenario, driving: &str, r: &mut Rng) -> (Vec<(usize, u64)>, u64, u
                         break;
                     }
                     calls += 1;
-                    if calls > 400_000 * n as u64 {
+                    // (a frame has fewer than 17728 instructions: more stops than that per frame means no end)
+                    if calls > 2 * (n as u64 * (17_728 / k + 2) + 2) {
                         stuck = true;
                         break;
+                    }
+                    // a host may confirm its speed setting at any stop
+                    if r.chance(1, 4) {
+                        emu.set_speed(EmulationMode::FrameCount(n));
                     }
                 }
                 n
@@ -170,7 +178,8 @@ fn drive(s: &Scenario, driving: &str, r: &mut Rng) -> (Vec<(usize, u64)>, u64, u
             "bp" | "bp1" => {
                 // a breakpoint every few instructions (bp1: on every instruction, so that a stop coincides with every
                 // other per-instruction event); resume until the frame is reported complete
-                emu.set_debug_interface(VDebug::Every { k: if driving == "bp1" { 1 } else { 1 + r.below(400) }, n: 0 });
+                let k = if how == "bp1" { 1 } else { 1 + r.below(400) };
+                emu.set_debug_interface(VDebug::Every { k, n: 0 });
                 emu.set_speed(EmulationMode::FrameCount(1));
                 let mut calls = 0u64;
                 loop {
@@ -179,7 +188,7 @@ fn drive(s: &Scenario, driving: &str, r: &mut Rng) -> (Vec<(usize, u64)>, u64, u
                         break;
                     }
                     calls += 1;
-                    if calls > 400_000 {
+                    if calls > 2 * (17_728 / k + 4) {
                         // more breakpoint stops than a frame has T-states: the frame end was never reported
                         stuck = true;
                         break;
@@ -222,7 +231,7 @@ pub fn run(args: &Args) {
     let base = args.num("base", 0);
     for k in base..base + scenarios {
         let s = scenario(&mut r, k, frames);
-        for driving in ["one", "one", "n", "n", "max1", "bp", "bp", "bp1", "bpn", "bpn", "soundoff", "nodrain", "chunk1", "chunk7", "file", "gzip"] {
+        for driving in ["one", "one", "n", "n", "max1", "bp", "bp", "bp1", "bpn", "bpn", "mix", "mix", "soundoff", "nodrain", "chunk1", "chunk7", "file", "gzip"] {
             if std::env::var("VH_DEBUG").is_ok() { eprintln!("scenario {k} driving {driving}"); }
             let (d, audio, audio_n, stuck) = drive(&s, driving, &mut r);
             let digests: Vec<Value> = d.iter().map(|(f, h)| json!([f, split(*h)])).collect();
